@@ -272,10 +272,26 @@ let frag_seq ovf args =
       let ops = match rest with [] -> [] | o :: _ -> split_on ',' o in
       let ops =
         List.map
-          (fun o -> if o = "t" then FTimer else FRecv (unhex (String.sub o 1 (String.length o - 1))))
+          (fun o -> if o = "t" || o = "w" then FTimer else FRecv (unhex (String.sub o 1 (String.length o - 1))))
           ops
       in
       let timeout = if tmo = "z" then N0 else n_of_int 1000000000 in
+      if tmo = "m" then begin
+        (* medium lifetime with explicit waits: the same reassemble / timer functions, the clock advanced by the glue:
+           one tick per op, 2000 ticks per wait, lifetime 1000 ticks *)
+        let now = ref 0 and st = ref { fs_queue = []; fs_timer = [] } and outs = ref [] in
+        List.iter (fun o ->
+          if o = "t" then (st := timer (n_of_int !now) !st; outs := "t" :: !outs)
+          else if o = "w" then (now := !now + 2000; outs := "w" :: !outs)
+          else begin
+            let dg = unhex (String.sub o 1 (String.length o - 1)) in
+            let (st', r) = reassemble (fun b -> Some b) ovf (n_of_int !now) (n_of_int 1000) !st dg in
+            st := st';
+            outs := show_raw (Some r) :: !outs
+          end;
+          now := !now + 1) (match rest with [] -> [] | o :: _ -> split_on ',' o);
+        String.concat "," (List.rev !outs)
+      end else
       if kind = "raw" then
         let outs = frag_run (fun b -> Some b) ovf timeout N0 { fs_queue = []; fs_timer = [] } ops in
         String.concat "," (List.map show_raw outs)
